@@ -60,9 +60,9 @@ RESULTS2 = {
  "C11-r2-2": ("C11", ""),
  "C11-r2-3": ("", "MISSED: needs one connection pipelining a request at the instant another connection of the same address tears its session down; C11's hostile connections come from different addresses"),
  "C11-r2-4": ("C11", "after requests on '*' inside a session were added; server panic"),
- "C12-r2-1": ("", "MISSED: needs a client through the HTTP tunnel against a server that stays connected but stops draining the POST channel; C12's scripted server does not speak the tunnel (with a real server the hang is bounded by the server's own timeout)"),
+ "C12-r2-1": ("C12", "after the HTTP-tunnelled client and the server that answers and then stops reading were added"),
  "C12-r2-2": ("C12", "after the sticky 401 behaviour was added"),
- "C12-r2-3": ("", "MISSED: needs a UDP-multicast client and a SETUP answer with port=65535; C12 has no multicast"),
+ "C12-r2-3": ("C12", "after the UDP-multicast client and the multicast-specific hostile SETUP answers were added"),
  "C12-r2-4": ("C12", "client panic"),
  "C13-r2-1": ("C13", "after ServerConn.Close from inside callbacks and coalesced deliveries were added; server crash"),
  "C13-r2-2": ("C13", ""), "C13-r2-3": ("C13", "hang"),
